@@ -125,6 +125,30 @@ def case_cond_special(cls, Rc, Rx, Dy, Dx):
     return Case(label, fn)
 
 
+def case_cond_ctor(cls, give, R, Dy, Dx):
+    """every accepted covariance-argument combination of every specialised conditional constructor"""
+    label = f"cond-ctor/{cls}/{give}/R{R}/Dy{Dy}Dx{Dx}"
+    def fn(m):
+        rng = gen.rng_path(m.seed, label)
+        fails = []
+        c = mk_cond(m, rng, cls, R, Dy, Dx, give=give)
+        params = dict(cls=cls, give=give, R=R, Dy=Dy, Dx=Dx)
+        o = m.regs.get(c.reg)
+        if o is None:
+            fails.append(failure(PROPERTY, f"ctor:{cls}:{give}", f"constructor raised: {m.impl[-1][1:]}", params=params)); return fails
+        fail_if(fails, PROPERTY, f"ctor:{cls}:{give}:Sigma", "Sigma after construction", np.asarray(o.Sigma), c.Sigma, params=params)
+        fail_if(fails, PROPERTY, f"ctor:{cls}:{give}:Lambda", "Lambda after construction is not the inverse of Sigma", np.asarray(o.Lambda), c.Lambda, params=params)
+        fail_if(fails, PROPERTY, f"ctor:{cls}:{give}:ln_det_Sigma", "ln_det_Sigma after construction is not log det Sigma", np.asarray(o.ln_det_Sigma), c.ln_det_Sigma, params=params)
+        g = m.cond(R, Dy, Dx, c.M, c.b, Sigma=c.Sigma)
+        x = m.arr(gen.points(rng, 2, Dx)); y = gen.points(rng, 2, Dy); yr = m.arr(y)
+        a = m.condition_on_x(c.reg, x); b = m.condition_on_x(g, x)
+        if m.regs.get(a) is not None and m.regs.get(b) is not None:
+            fail_if(fails, PROPERTY, f"ctor:{cls}:{give}:density", "conditional density differs from the general class",
+                    np.asarray(m.regs[m.evalln(a, yr)]), np.asarray(m.regs[m.evalln(b, yr)]), params=params)
+        return fails
+    return Case(label, fn)
+
+
 def case_nn(Ru, Dy, Dx, Du, Rx):
     label = f"nncontrol/Ru{Ru}/Dy{Dy}Dx{Dx}Du{Du}/Rx{Rx}"
     def fn(m):
@@ -178,6 +202,10 @@ def cases(seed, tier):
         out.append(case_diag_measure(R, D))
     for (Ru, Dy, Dx, Du, Rx) in [(1, 2, 3, 2, 1), (1, 3, 2, 1, 3), (3, 2, 2, 2, 1)] + ([(2, 1, 3, 3, 1), (1, 2, 1, 2, 2)] if tier != "quick" else []):
         out.append(case_nn(Ru, Dy, Dx, Du, Rx))
+    for cls in ("diag", "identity", "identitydiag", "full"):
+        for give in ("Sigma", "Lambda", "all"):
+            Dy = 2 if cls in ("diag", "full") else 3
+            out.append(case_cond_ctor(cls, give, 2, Dy, 3))
     grid = [s for s in shape_grid(seed, "C15", tier) if s[0] != "full"]
     for s in grid:
         out.append(case_cond_special(*s))
